@@ -1,6 +1,6 @@
 EXPLANATION = ('C19 (also: data items with defaulted entries, TITLE after a record with trailing defaults and with words that need quotes, block terminators of double-record keywords, UDA numbers): a DeckRecord with symbolic values and a symbolic defaulted pattern is written with the real DeckRecord::write / DeckItem::write_vector / DeckOutput code to an in-memory stream, '
-  'tokenised and scanned back with the real RawRecord / ParserRecord::parse / ParserItem::scan path, and compared item by item (values, defaulted flags); writing the re-read record must reproduce the text.')
-BOUNDS = 'records of 4 single-valued items (thorough: 5), every defaulted/explicit pattern, int values in (-1000, 1000), strings of 3 characters with an embedded blank, slash or star'
+  'tokenised and scanned back with the real RawRecord / ParserRecord::parse / ParserItem::scan path, and compared item by item (values, defaulted flags); writing the re-read record must reproduce the text; at deck level a three-keyword deck built by Parser::parseString is printed with operator<<(Deck), re-parsed and compared item by item, and printing is a fixpoint.')
+BOUNDS = 'deck level: first record body of <= 2 (thorough 3) symbolic 7-bit bytes, list keyword with 0-2 records; records of 4 single-valued items (thorough: 5), every defaulted/explicit pattern, int values in (-1000, 1000), strings of 3 characters with an embedded blank, slash or star'
 OUTSIDE = 'symbolic doubles (formatting of a symbolic double is out of reach; five concrete numbers are checked for the 10-digit precision), table-collection keywords and line splitting of long data arrays (need ParserKeyword from the generated tables), FileDeck'
 ASSUMPTIONS = ['std::ostringstream replaced by the memfile stream model; operator<<(int) prints decimal digits (symbolic values: one path per sign/digit count)']
 TUS = ['opm/input/eclipse/Parser/ParserRecord.cpp', 'opm/input/eclipse/Parser/ParserItem.cpp', 'opm/input/eclipse/Parser/raw/RawRecord.cpp', 'opm/input/eclipse/Parser/raw/StarToken.cpp',
@@ -9,9 +9,21 @@ TUS = ['opm/input/eclipse/Parser/ParserRecord.cpp', 'opm/input/eclipse/Parser/Pa
        'opm/input/eclipse/Parser/ParserEnums.cpp']
 def jobs(tier):
     n = 4 if tier == 'quick' else 5
-    return [dict(name='record_int', src='h_write.cpp', defs={'NITEMS': n, 'STRITEMS': 0}, entry='h_roundtrip', tus=TUS, fp='real', loopmax=4000, maxsteps=200000000, bounds='%d int items' % n),
+    out = [dict(name='record_int', src='h_write.cpp', defs={'NITEMS': n, 'STRITEMS': 0}, entry='h_roundtrip', tus=TUS, fp='real', loopmax=4000, maxsteps=200000000, bounds='%d int items' % n),
             dict(name='record_str', src='h_write.cpp', defs={'NITEMS': n, 'STRITEMS': 1}, entry='h_roundtrip', tus=TUS, fp='real', loopmax=4000, maxsteps=200000000, bounds='%d string items' % n),
             dict(name='data_item', src='h_write2.cpp', defs={'NV': n}, entry='h_data_item', tus=TUS, fp='real', loopmax=4000, maxsteps=200000000, bounds='one int item with %d values, every defaulted pattern' % n),
             dict(name='title_after_defaults', src='h_write2.cpp', defs={}, entry='h_title', tus=TUS + ['opm/input/eclipse/Deck/DeckKeyword.cpp'], fp='real', loopmax=4000, maxsteps=200000000, bounds='a 3-item record with any trailing defaults, then TITLE with two words of 3 characters incl. blank, slash or star'),
             dict(name='double_record', src='h_write2.cpp', defs={}, entry='h_double_record', tus=TUS + ['opm/input/eclipse/Deck/DeckKeyword.cpp'], fp='real', loopmax=4000, maxsteps=200000000, bounds='two blocks of 1-2 records'),
             dict(name='uda_number', src='h_write2.cpp', defs={}, entry='h_uda_number', tus=TUS, fp='real', loopmax=4000, maxsteps=200000000, bounds='five concrete numbers with up to 10 significant digits (formatting of a symbolic double is out of reach)')]
+    PT = ['opm/input/eclipse/Parser/%s.cpp' % n for n in ('raw/RawKeyword', 'raw/RawRecord', 'raw/StarToken', 'ParseContext', 'ErrorGuard', 'InputErrorAction', 'ParserKeyword', 'ParserRecord', 'ParserItem', 'ParserEnums')] + [
+          'opm/input/eclipse/Deck/%s.cpp' % n for n in ('Deck', 'DeckKeyword', 'DeckRecord', 'DeckItem', 'DeckView', 'DeckTree', 'DeckValue', 'DeckOutput', 'DeckSection', 'UDAValue', 'FileDeck', 'ImportContainer')] + [
+          'opm/input/eclipse/Units/%s.cpp' % n for n in ('UnitSystem', 'Dimension')] + [
+          'opm/common/%s.cpp' % n for n in ('OpmLog/OpmLog', 'OpmLog/Logger', 'OpmLog/LogUtil', 'OpmLog/KeywordLocation', 'utility/OpmInputError', 'utility/String', 'utility/shmatch')] + [
+          'opm/input/eclipse/Python/Python.cpp', 'opm/input/eclipse/Python/PythonInterp.cpp', '_build/ParserKeywords/E.cpp', '_build/ParserKeywords/G.cpp']
+    hn = 2 if tier == 'quick' else 3
+    for kw, kn in ((0, 'eqldims'), (1, 'gridunit')):
+        out.append(dict(name='deck_roundtrip_' + kn, src='h_deckrt.cpp', defs={'HN': hn, 'KWSEL': kw}, entry='h_deck_roundtrip', tus=PT, fp='real', loopmax=4000, maxsteps=200000000, timeout=900 if tier == 'quick' else 7200, opts=['--ctors'],
+                        bounds='deck of three keywords parsed from text whose first record body is every string of <= %d 7-bit bytes (no quote, slash, dash); print, re-parse, print' % hn))
+    out.append(dict(name='deck_roundtrip_list', src='h_deckrt.cpp', defs={'HN': hn, 'KWSEL': 0}, entry='h_deck_list', tus=PT, fp='real', loopmax=4000, maxsteps=200000000, timeout=900 if tier == 'quick' else 7200, opts=['--ctors'],
+                    bounds='deck of a list keyword (GRUPTREE) with 0, 1 or 2 records (symbolic or defaulted parent name) followed by two keywords; print, re-parse, print'))
+    return out
